@@ -49,6 +49,12 @@ Lemma ascii_sound121 : holds (chk_ascii_sound T121).
 Proof. vm_compute. reflexivity. Qed.
 Lemma ascii_complete121 : holds (chk_ascii_complete R121).
 Proof. vm_compute. reflexivity. Qed.
+Lemma fx_sound121 : holds (chk_fx_sound T121).
+Proof. vm_compute. reflexivity. Qed.
+Lemma ul_sound2_121 : holds (chk_ul_sound2 T121).
+Proof. vm_compute. reflexivity. Qed.
+Lemma cand2_complete121 : holds (chk_cand2_complete T121 R121).
+Proof. vm_compute. reflexivity. Qed.
 
 (* ---- lifted to all runes by the generic lemmas of FoldFacts2.v ---- *)
 
@@ -166,4 +172,14 @@ Proof.
   unfold fold121.
   exact (FoldFacts2.ascii_cands_exact T121 R121 range121 pairs121 members121 singletons121
            ascii_sound121 ascii_complete121 r x).
+Qed.
+
+(* F8: the candidate test of Index / bruteForceIndexUnicode for a first or second code point u *)
+Definition fold_map_excl121 := fold_map_excl T121.
+Theorem cand2_exact u r :
+  0 <= u <= MaxRune -> int32 r -> (cand2 T121 u r = true <-> fold121 r = fold121 u).
+Proof.
+  unfold fold121.
+  exact (FoldFacts2.cand2_exact T121 R121 range121 pairs121 members121 singletons121
+           fx_sound121 ul_sound2_121 cand2_complete121 u r).
 Qed.
